@@ -481,7 +481,7 @@ class Facts:
         cur = getattr(node, "_parent", None)
         while cur is not None and cur is not self.fn:
             if isinstance(cur, (ast.For, ast.AsyncFor)) and not any(node is x for s in cur.orelse for x in ast.walk(s)):
-                out.append(f"for {norm(cur.target)} in {expand(cur.iter, self.fn)}")
+                out.append(f"for {norm(cur.target)} in {iter_text(ast.parse(expand(cur.iter, self.fn), mode='eval').body)}")
             elif isinstance(cur, ast.While):
                 out.append(f"while {expand(cur.test, self.fn)}")
             cur = getattr(cur, "_parent", None)
@@ -593,3 +593,20 @@ def str_parts(expr):
                 out.append("{" + norm(v.value) + ("" if v.format_spec is None else ":" + norm(v.format_spec)) + "}")
         return out
     return None
+
+
+def iter_text(expr):
+    """Text of an expression that is only ITERATED (the iterable of a for / comprehension): a list display and a tuple display are the same
+    sequence there, so `d.get(k, [])` / `d.get(k, ())` and `xs or [a]` / `xs or (a,)` read alike (displays are printed as tuples)."""
+    e = copy_tree(expr)
+
+    def tup(x):
+        return ast.Tuple(elts=x.elts, ctx=ast.Load()) if isinstance(x, ast.List) and not any(isinstance(y, ast.Starred) for y in x.elts) else x
+    e = tup(e)
+    if isinstance(e, ast.BoolOp):
+        e.values = [tup(v) for v in e.values]
+    if isinstance(e, ast.IfExp):
+        e.body, e.orelse = tup(e.body), tup(e.orelse)
+    if isinstance(e, ast.Call) and isinstance(e.func, ast.Attribute) and e.func.attr == "get" and len(e.args) == 2:
+        e.args[1] = tup(e.args[1])
+    return norm(e)
